@@ -64,7 +64,10 @@ Definition Line_NTq (e : Vec4 T) (f : Vec4 T) : Vec2 T := dn2 (m33_Tmulv K (quat
 Definition Line_NTe (a : Vec3 T) (f : Vec3 T) : Vec2 T := dn2 (m33_Tmulv K (cNB_q K a) f).
 Definition Line_NInvTq (e : Vec4 T) (g : Vec2 T) : Vec4 T := Ball_NInvTq e (m33_mulv K (quatR K e) (up3 K g)).
 Definition Line_NInvTe (a : Vec3 T) (g : Vec2 T) : Vec3 T := m33_Tmulv K (cNInvB_q K a) (up3 K g).
-Definition Line_NDotTq_impl (e ed : Vec4 T) (f : Vec4 T) : Vec2 T := dn2 (m33_Tmulv K (quatR K e) (Ball_NDotTq ed f)).
+(** transpose of Line_NDotq:  P^T R^T N_Q(qdot)^T f  -  P^T ((u,0) x (R^T N_Q(q)^T f)) *)
+Definition Line_NDotTq (e ed : Vec4 T) (u : Vec2 T) (f : Vec4 T) : Vec2 T :=
+  v2_sub K (dn2 (m33_Tmulv K (quatR K e) (Ball_NDotTq ed f)))
+           (dn2 (v3_cross K (up3 K u) (m33_Tmulv K (quatR K e) (Ball_NTq e f)))).
 Definition Line_NDotTe (a ad : Vec3 T) (f : Vec3 T) : Vec2 T := dn2 (m33_Tmulv K (cNDotB_q K a ad) f).
 
 (** list dispatch (q-like in, u-like out for NT and NDotT; u-like in, q-like out for NInvT) *)
@@ -85,16 +88,16 @@ Definition mob_NInvT (m : mspec (T:=T)) (q g : list T) : list T :=
   | MFreeLine => (if usesQuat m then of4 (Line_NInvTq (l4 K q) (nth0 K g 0, nth0 K g 1)) else of3 (Line_NInvTe (l3 K q 0) (nth0 K g 0, nth0 K g 1))) ++ of3 (l3 K g 2)
   | _ => g
   end.
-Definition mob_NDotT (m : mspec (T:=T)) (q qd f : list T) : list T :=
+Definition mob_NDotT (m : mspec (T:=T)) (q u qd f : list T) : list T :=
   match m_type m with
   | MBall | MEllipsoid => if usesQuat m then of3 (Ball_NDotTq (l4 K qd) (l4 K f)) else of3 (Ball_NDotTe (l3 K q 0) (l3 K qd 0) (l3 K f 0))
   | MFree => (if usesQuat m then of3 (Ball_NDotTq (l4 K qd) (l4 K f)) else of3 (Ball_NDotTe (l3 K q 0) (l3 K qd 0) (l3 K f 0))) ++ zeros K 3
-  | MLineOrientation => if usesQuat m then of2 (Line_NDotTq_impl (l4 K q) (l4 K qd) (l4 K f)) else of2 (Line_NDotTe (l3 K q 0) (l3 K qd 0) (l3 K f 0))
-  | MFreeLine => (if usesQuat m then of2 (Line_NDotTq_impl (l4 K q) (l4 K qd) (l4 K f)) else of2 (Line_NDotTe (l3 K q 0) (l3 K qd 0) (l3 K f 0))) ++ zeros K 3
+  | MLineOrientation => if usesQuat m then of2 (Line_NDotTq (l4 K q) (l4 K qd) (nth0 K u 0, nth0 K u 1) (l4 K f)) else of2 (Line_NDotTe (l3 K q 0) (l3 K qd 0) (l3 K f 0))
+  | MFreeLine => (if usesQuat m then of2 (Line_NDotTq (l4 K q) (l4 K qd) (nth0 K u 0, nth0 K u 1) (l4 K f)) else of2 (Line_NDotTe (l3 K q 0) (l3 K qd 0) (l3 K f 0))) ++ zeros K 3
   | _ => map (fun _ => n0 K) f
   end.
 Fixpoint ladd (a b : list T) : list T := match a, b with x :: a', y :: b' => nadd K x y :: ladd a' b' | _, _ => nil end.
 (** qdotdot = N udot + NDot u, with NDot evaluated at qdot = N u *)
 Definition mob_qdd (m : mspec (T:=T)) (q u ud : list T) : list T :=
-  ladd (mob_N K m q ud) (mob_NDot K m q (mob_N K m q u) u).
+  ladd (mob_N K m q ud) (mob_NDot K m q u (mob_N K m q u) u).
 End Comp.
